@@ -210,7 +210,10 @@ def run(rep, tier, seed):
     # ---- the other front-ends on a sample ------------------------------------------
     svgdx, server_bin = vlib.build_bins()
     # (inputs on which the library itself already misbehaved are reported above, not sent again)
-    sample = [c for c in cases if c["what"].startswith(("depth", "lex")) and res[c["k"]]["status"] in ("ok", "err")]
+    # (the command and the server are unoptimised builds: inputs the optimised library needs more than
+    # two seconds for are left to the library run - their watchdog limit here could not tell slow from stuck)
+    sample = [c for c in cases if c["what"].startswith(("depth", "lex")) and res[c["k"]]["status"] in ("ok", "err")
+              and (res[c["k"]].get("us") or 0) < 2_000_000]
     rnd.shuffle(sample)
     sample = sample[: (400 if big else 80)]
     wd = vlib.workdir("c01cli")
@@ -218,8 +221,14 @@ def run(rep, tier, seed):
     import subprocess
     for c in sample[: len(sample) // 2]:
         data = base64.b64decode(c["b64"])
-        p = subprocess.run([svgdx], input=data, stdout=subprocess.PIPE, stderr=subprocess.PIPE, timeout=180)
         rep.case("cli" + c["k"])
+        try:
+            p = subprocess.run([svgdx], input=data, stdout=subprocess.PIPE, stderr=subprocess.PIPE, timeout=180)
+        except subprocess.TimeoutExpired:
+            rep.violation(f"totality:cli:{c['what']}:hang", {"what": c["what"], "n": c.get("n"), "library_ms": (res[c["k"]].get("us") or 0) // 1000,
+                                                              "detail": "the svgdx command did not finish within 180 s on an input the library handles in under 2 s",
+                                                              "input_b64": vlib.trunc(c["b64"], 3000)})
+            continue
         if p.returncode not in (0, 1):
             rep.violation(f"totality:cli:{c['what']}:exit-{p.returncode}", {"what": c["what"], "n": c.get("n"), "rc": p.returncode,
                                                                              "stderr": vlib.trunc(p.stderr.decode('utf-8', 'replace'), 500),
